@@ -155,3 +155,6 @@ Print Assumptions C03_huge_int_rendering_refuted.
 Theorem C03_cwd_deleted_refuted : finding_status 28 wit_finding_28.
 Proof. exact finding_28_status. Qed.
 Print Assumptions C03_cwd_deleted_refuted.
+Theorem C03_any_class_spec_init_args_not_mapping_refuted : finding_status 29 wit_finding_29.
+Proof. exact finding_29_status. Qed.
+Print Assumptions C03_any_class_spec_init_args_not_mapping_refuted.
